@@ -594,7 +594,7 @@ def rule_keyed_access(res, rid, m, also_methods=True):
         if f.key != m.decode.key:
             pd = [q["decl"] for q in f.params]
             srcs = [d for d in decls if d in pd]
-            others = [d for d in decls if d not in pd and not d.startswith("l")]
+            others = [d for d in decls if d not in pd and not facts.is_local_decl(d)]
             if len(srcs) != 1 or (calls & HDR_GETTERS) or others or depth > 1:
                 return ["component %s of a helper is not one of its parameters passed in by decode" % canon(comp)]
             for g, c in call_sites(f):
